@@ -105,14 +105,12 @@ def rule_pair(fx, rep):
     # make_move / make_null_move save it (pre-move)
     for mk in ("Game::make_move", "Game::make_null_move"):
         bm = fx.one(mk)
-        aggs = pC02.history_aggregates(bm)
+        hs = pC02.history_save(fx, bm)
         n += 1
         good = False
-        if len(aggs) == 1:
-            rv = aggs[0][2]["rv"]
-            for fname, op in zip(rv["fields"], rv["ops"]):
-                if fname == "incremental_eval":
-                    good = pC02.first_game_field_read(bm, bm.expr(op, expand_named=True)) == "incremental_eval"
+        if hs is not None and "incremental_eval" in hs["fields"]:
+            hb, op, hbb = hs["fields"]["incremental_eval"]
+            good = pC02.first_game_field_read(hb, hb.expr(op, expand_named=True, at=hbb)) == "incremental_eval"
         rep.obligation(good)
         if not good:
             bad(f"save/{mk}", f"`{bm.name}` does not save the accumulator into History", bm)
@@ -235,7 +233,24 @@ def rule_same(fx, rep, terms):
                     tf = term_fn(t2)
                     if tf and tf != want and fx.body(tf) and fx.body(tf).name == nm:
                         others.add(tf)
-            if len(tcalls) != 1:
+            in_closures = []
+            if not tcalls:
+                # iterator-chain form: the term is evaluated inside a closure of the summing function
+                for nm in fx.cone([sb.name]):
+                    cb = fx.bodies[nm]
+                    if cb is not sb and nm.startswith(sb.name + "::{closure"):
+                        in_closures += [(cb, bb, t) for bb, t in cb.calls() if callee_name(t) and norm(callee_name(t)) == want]
+            if not tcalls and len(in_closures) == 1 and not others:
+                cbody, cbb, ct = in_closures[0]
+                cargs = [cbody.expr(a, expand_named=True) for a in ct["args"]]
+                inc_args = strip_refs(terms[fname])[2]
+                shape_inc = ["kind" if is_field(a, "kind") else "whole" for a in inc_args]
+                shape_ini = ["kind" if is_field(a, "kind") else "whole" for a in cargs]
+                if shape_inc != shape_ini:
+                    good, why = False, f"argument shapes differ: incremental {shape_inc} vs from-scratch {shape_ini}"
+                else:
+                    rep.notes.append(f"C15-SAME: `{sb.name}` sums `{want}` through an iterator chain; the visited squares and the guard are not decided for this shape")
+            elif len(tcalls) != 1:
                 good, why = False, f"`{sb.name}` calls the term function `{want}` {len(tcalls)} time(s) (expected once, in its loop)"
             elif others:
                 good, why = False, f"`{sb.name}` also reaches other accumulator term functions {sorted(others)}"
